@@ -581,6 +581,18 @@ def gen_C07(tier, rng):
         ins.append(("op", ("softmax",), [0]))
         ins.append(("op", ("softmax",), [1]))
         cases.append(case("maps", ins, "maps:rank%d" % len(s), rtol=1e-9))
+    # in-domain but extreme values: rows of logits hundreds apart (every exp is representable), huge and tiny
+    # positive numbers for ln / reciprocal / powf, saturated sigmoids
+    for k in range(60 if tier == "quick" else 600):
+        rows, n = rng.randint(2, 4), rng.randint(1, 4)
+        base = [rng.choice([-600.0, -400.0, -50.0, 0.0, 50.0, 400.0, 600.0]) for _ in range(rows)]
+        vals = [b + rng.uniform(-3, 3) for b in base for _ in range(n)]
+        s = rng.choice([[rows, n], [1, rows, n], [rows, 1, n]])
+        ins = [("leaf", False, s, vals), ("op", ("softmax",), [0]), ("op", ("sigmoid",), [0])]
+        big = [rng.choice([1e-300, 1e-150, 1e-20, 1.0, 1e20, 1e150, 1e300]) * rng.uniform(1, 9) for _ in range(rows * n)]
+        ins += [("leaf", False, s, big), ("op", ("ln",), [3]), ("op", ("recip",), [3]), ("op", ("powf", 0.5), [3]),
+                ("op", ("powf", -1.0), [3])]
+        cases.append(case("extreme", ins, "extreme_values", rtol=1e-6))
     # ranks 5-6 and dimensions up to 9 (beyond the exhaustive scope)
     for _ in range(40 if tier == "quick" else 500):
         while True:
@@ -2006,20 +2018,20 @@ def model_case(rng, tier):
             nin, nout = sizes[j], sizes[j + 1]
             layers.append(("dense", nin, nout, act, [rng.uniform(-1, 1) for _ in range(nin * nout)],
                            [rng.uniform(-0.5, 0.5) for _ in range(nout)]))
-        batch = rng.choice([[], [1], [3], [2], [2, 2], [2, 3], [3, 2], [1, 3]])
-        in_dims = batch + [sizes[0]]
+        batches = [[], [1], [3], [2], [2, 2], [2, 3], [3, 2], [1, 3]]
+        feat = [sizes[0]]
     else:
         cost = rng.choice(["mse", "mse", "ce"])
         depth = rng.randint(1, 2)
         rows, cols = rng.randint(3, 5), rng.randint(3, 5)
         n_layers = rng.randint(1, 2)
-        batch = rng.choice([[], [1], [2]])
-        in_dims = batch + [depth, rows, cols]
+        batches = [[], [1], [2], [3]]
+        feat = [depth, rows, cols]
         d, r, c = depth, rows, cols
         for j in range(n_layers):
             fr, fc = rng.randint(1, min(2, r)), rng.randint(1, min(3, c))
             sr, sc = rng.randint(1, 2), rng.randint(1, 2)
-            count = rng.randint(1, 2)
+            count = rng.randint(1, 3)
             act = rng.choice(["none", "relu", "sigmoid"])
             if cost == "ce" and j == n_layers - 1:
                 act = "sigmoid"      # cross-entropy needs positive outputs
@@ -2029,28 +2041,35 @@ def model_case(rng, tier):
             d, r, c = count, (r - fr) // sr + 1, (c - fc) // sc + 1
     lr = rng.choice([0.1, 0.5, 0.01, 1.0])
     ins = [("model", layers, cost, lr)]
-    info = {}
     params0 = []
     for l in layers:
         params0 += [list(l[4]), list(l[5])]
-    _, out_dims = ref_forward([tuple(l) for l in layers], params0, [0.5] * prod(in_dims), in_dims, info)
     iters = rng.randint(1, 4)
+    # the batch shape is fixed for the run in half of the cases and changes from iteration to iteration
+    # (unbatched / different batch sizes, any order) in the other half
+    fixed = rng.choice(batches)
+    vary = rng.random() < 0.5
     meta = {"layers": layers, "cost": cost, "lr": lr, "iters": []}
     ins.append(("params",))
+    shapes_seen = []
     for it in range(iters):
+        batch = rng.choice(batches) if vary else fixed
+        in_dims = batch + feat
+        shapes_seen.append("x".join(map(str, batch)) or "none")
+        _, out_dims = ref_forward([tuple(l) for l in layers], params0, [0.5] * prod(in_dims), in_dims, {})
         x = [rng.uniform(-1, 1) for _ in range(prod(in_dims))]
         ins.append(("leaf", False, in_dims, x))
         xi = len(ins) - 1
         ins.append(("forward", xi))
         fi = len(ins) - 1
-        if cost == "ce":
+        if cost == "ce" and kind == "dense":
             n = out_dims[-1]
             t = []
             for r_ in range(prod(out_dims) // n):
                 hot = rng.randrange(n)
                 t += [1.0 if q == hot else 0.0 for q in range(n)]
-            if kind == "conv":
-                t = [rng.choice([0.0, 1.0, 0.5]) for _ in range(prod(out_dims))]
+        elif cost == "ce":
+            t = [rng.choice([0.0, 1.0, 0.5]) for _ in range(prod(out_dims))]
         else:
             t = [rng.uniform(-1, 1) for _ in range(prod(out_dims))]
         ins.append(("leaf", False, out_dims, t))
@@ -2075,8 +2094,8 @@ def model_case(rng, tier):
             if not meta["iters"][it - 1].get("taken"):
                 ins.append(("takevec", prev))
                 meta["iters"][it - 1]["taken"] = len(ins) - 1
-    c = case("model", ins, "%s:%s:%s" % (kind, cost, "batch" + "x".join(map(str, batch)) if batch else "%s:%s:unbatched" % (kind, cost)),
-             rtol=1e-7)
+    c = case("model", ins, "%s:%s:%s" % (kind, cost, "varying_batches" if vary and len(set(shapes_seen)) > 1
+                                         else "batch_" + shapes_seen[0]), rtol=1e-7)
     c["model_meta"] = meta
     return c
 
@@ -2292,6 +2311,25 @@ def gen_C08(tier, rng):
                 cands = [v for v in ops if rng.random() < 0.5]
                 if cands:
                     h.drop(cands[0])
+            snapshot()
+        if n % 3 == 0:
+            # a reshaped view taken while the array was still untracked; the array is then tracked, used,
+            # the graph is dropped, and the optimizer steps it: the view must keep showing the old values
+            dims = h.rand_dims(2)
+            nn = prod(dims)
+            flat = h.leaf([nn], tracked=False)
+            view = h.result(("reshape", dims), [flat], dims, False, flat.exact, flat.mag)
+            if rng.random() < 0.5:
+                param, other = view, flat
+            else:
+                param, other = flat, view
+            h.set_flag(param, "tracked")
+            y = h.result(("scale", 2.0), [param], param.dims, False, False, param.mag * 2)
+            h.emit(("backward", y.idx, None))
+            h.drop(y)
+            snapshot()
+            h.emit(("update", 0.5, [param.idx]))
+            epoch[param.idx] = epoch.get(param.idx, 0) + 1
             snapshot()
         c = case("snap", h.ins, "snapshots:%s" % ("exact" if exact else "float"),
                  **({} if exact else {"rtol": 1e-7}))
